@@ -16,7 +16,7 @@ fn versions_attr(f: &DField) -> String {
 fn emit_def(fam: &Family, d: &DataDef, k: u32, out: &mut String) {
     match &d.kind {
         DKind::Struct(fields) => {
-            writeln!(out, "    #[derive(Savefile)]\n    pub struct {} {{", d.name).unwrap();
+            writeln!(out, "    #[derive(Savefile)]{}\n    pub struct {} {{", if d.repr_u8 { "\n    #[repr(C)]" } else { "" }, d.name).unwrap();
             for f in fields.iter().filter(|f| f.emitted_at(k)) {
                 if f.live_at(k) {
                     // a live field of this revision has an open range
